@@ -5,6 +5,7 @@
 #include <cstdint>
 #include <cstring>
 #include <initializer_list>
+#include <iterator>
 #include <limits>
 #include <stdexcept>
 
@@ -1195,15 +1196,7 @@ class VectorImpl : public VectorDestr<T, Alloc, SizeType, WithInlineElements, Gr
   /// The behavior is undefined if either argument is an iterator into *this.
   template <class InputIt, typename std::enable_if<!std::is_integral<InputIt>::value, bool>::type = true>
   void assign(InputIt first, InputIt last) {
-    uintmax_t count = std::distance(first, last);
-    if (static_cast<uintmax_t>(this->size()) < count) {
-      this->adjustCapacity(count);
-      assign_n(first, static_cast<SizeType>(count), this->begin(), this->size());
-    } else {
-      // copy to already existing elements and destroy remaining ones
-      amc::destroy(std::copy(first, last, this->begin()), end());
-    }
-    this->setSize(static_cast<SizeType>(count));
+    assign_range(first, last, typename std::iterator_traits<InputIt>::iterator_category());
   }
 
   void assign(std::initializer_list<T> ilist) { assign(ilist.begin(), ilist.end()); }
@@ -1250,22 +1243,7 @@ class VectorImpl : public VectorDestr<T, Alloc, SizeType, WithInlineElements, Gr
   template <class InputIt, typename std::enable_if<!std::is_integral<InputIt>::value, bool>::type = true>
   iterator insert(const_iterator position, InputIt first, InputIt last) {
     assert(position >= this->cbegin() && position <= cend());
-    typename std::iterator_traits<InputIt>::difference_type count = std::distance(first, last);
-    iterator pos;
-    if (count > 0) {
-      pos = this->adjustCapacity(static_cast<uintmax_t>(this->size()) + count, position);
-      SizeType nElemsToShift = static_cast<SizeType>(this->size() - (pos - this->begin()));
-      if (nElemsToShift == 0) {
-        amc::uninitialized_copy_n(first, count, pos);
-      } else {
-        shift_right(pos, nElemsToShift, static_cast<SizeType>(count));
-        copy_after_shift(first, nElemsToShift, static_cast<SizeType>(count), pos);
-      }
-      this->setSize(static_cast<SizeType>(this->size() + count));
-    } else {
-      pos = const_cast<iterator>(position);
-    }
-    return pos;
+    return insert_range(position, first, last, typename std::iterator_traits<InputIt>::iterator_category());
   }
 
   iterator insert(const_iterator pos, std::initializer_list<T> list) { return insert(pos, list.begin(), list.end()); }
@@ -1343,8 +1321,7 @@ class VectorImpl : public VectorDestr<T, Alloc, SizeType, WithInlineElements, Gr
   /// The behavior is undefined if first and last are iterators into *this
   template <class InputIt, typename std::enable_if<!std::is_integral<InputIt>::value, bool>::type = true>
   void append(InputIt first, InputIt last) {
-    this->adjustCapacity(static_cast<uintmax_t>(this->size()) + std::distance(first, last));
-    this->setSize(static_cast<SizeType>(amc::uninitialized_copy(first, last, end()) - this->begin()));
+    append_range(first, last, typename std::iterator_traits<InputIt>::iterator_category());
   }
 
   void append(size_type count) {
@@ -1362,6 +1339,83 @@ class VectorImpl : public VectorDestr<T, Alloc, SizeType, WithInlineElements, Gr
   void append(std::initializer_list<T> list) { append(list.begin(), list.end()); }
 
  protected:
+  // Range operations are dispatched on the iterator category: a single-pass input range can be traversed only once,
+  // so its length cannot be computed with std::distance before copying from it.
+
+  template <class InputIt>
+  void assign_range(InputIt first, InputIt last, std::input_iterator_tag) {
+    iterator cur = this->begin();
+    for (; first != last && cur != end(); ++cur, (void)++first) {
+      *cur = *first;
+    }
+    if (first == last) {
+      erase(cur, end());
+    } else {
+      append_range(first, last, std::input_iterator_tag());
+    }
+  }
+
+  template <class ForwardIt>
+  void assign_range(ForwardIt first, ForwardIt last, std::forward_iterator_tag) {
+    uintmax_t count = std::distance(first, last);
+    if (static_cast<uintmax_t>(this->size()) < count) {
+      this->adjustCapacity(count);
+      assign_n(first, static_cast<SizeType>(count), this->begin(), this->size());
+    } else {
+      // copy to already existing elements and destroy remaining ones
+      amc::destroy(std::copy(first, last, this->begin()), end());
+    }
+    this->setSize(static_cast<SizeType>(count));
+  }
+
+  template <class InputIt>
+  iterator insert_range(const_iterator position, InputIt first, InputIt last, std::input_iterator_tag) {
+    SizeType idx = static_cast<SizeType>(position - this->begin());
+    SizeType oldSize = this->size();
+    append_range(first, last, std::input_iterator_tag());
+    std::rotate(this->begin() + idx, this->begin() + oldSize, end());
+    return this->begin() + idx;
+  }
+
+  template <class ForwardIt>
+  iterator insert_range(const_iterator position, ForwardIt first, ForwardIt last, std::forward_iterator_tag) {
+    typename std::iterator_traits<ForwardIt>::difference_type count = std::distance(first, last);
+    iterator pos;
+    if (count > 0) {
+      pos = this->adjustCapacity(static_cast<uintmax_t>(this->size()) + count, position);
+      SizeType nElemsToShift = static_cast<SizeType>(this->size() - (pos - this->begin()));
+      if (nElemsToShift == 0) {
+        amc::uninitialized_copy_n(first, count, pos);
+      } else {
+        shift_right(pos, nElemsToShift, static_cast<SizeType>(count));
+        copy_after_shift(first, nElemsToShift, static_cast<SizeType>(count), pos);
+      }
+      this->setSize(static_cast<SizeType>(this->size() + count));
+    } else {
+      pos = const_cast<iterator>(position);
+    }
+    return pos;
+  }
+
+  template <class InputIt>
+  void append_range(InputIt first, InputIt last, std::input_iterator_tag) {
+    SizeType oldSize = this->size();
+    try {
+      for (; first != last; ++first) {
+        this->emplace_back(*first);
+      }
+    } catch (...) {
+      erase(this->begin() + oldSize, end());
+      throw;
+    }
+  }
+
+  template <class ForwardIt>
+  void append_range(ForwardIt first, ForwardIt last, std::forward_iterator_tag) {
+    this->adjustCapacity(static_cast<uintmax_t>(this->size()) + std::distance(first, last));
+    this->setSize(static_cast<SizeType>(amc::uninitialized_copy(first, last, end()) - this->begin()));
+  }
+
   template <class... Args>
   explicit VectorImpl(Args &&...args) noexcept
       : VectorDestr<T, Alloc, SizeType, WithInlineElements, GrowingPolicy,
